@@ -597,10 +597,32 @@ pub fn gen_config(rng: &mut Rng, opts: &GenOpts) -> Config {
         split_depth: if threads > 1 { Some(*rng.pick(&[0u32, 1, 2, 30])) } else { None },
         probe: capacity < 100 && threads == 1,
         oom_ok: capacity < 100,
+        unguarded: false,
     }
 }
 
+/// program for the capacity sweeps (C14): a generated history followed by a target
+/// instruction of one of the allocating kinds
+pub fn gen_sweep_program(seed: u64, run: u64, opts: &GenOpts) -> Program {
+    gen_program_tail(seed, run, opts, true)
+}
+
 pub fn gen_program(seed: u64, run: u64, opts: &GenOpts) -> Program {
+    gen_program_tail(seed, run, opts, false)
+}
+
+fn is_target(i: &Instr) -> bool {
+    use Instr::*;
+    matches!(
+        i,
+        Var { .. } | NotVar { .. } | Table { .. } | Not { .. } | Bin { .. } | Ite { .. } | Restrict { .. } | Quantify { .. }
+            | ApplyQuant { .. } | Subst { .. } | PickCubeDd { .. } | PickCubeDdSet { .. } | ZSingleton { .. } | ZBin { .. }
+            | ZUn { .. } | ZMakeNode { .. } | NConst { .. } | NVar { .. } | NBin { .. } | NIte { .. } | NRestrict { .. }
+            | TVar { .. } | TNot { .. } | TBin { .. } | TIte { .. } | Dddmp { .. }
+    )
+}
+
+fn gen_program_tail(seed: u64, run: u64, opts: &GenOpts, target: bool) -> Program {
     let mut crng = Rng::new(seed, run, STREAM_CONFIG);
     let config = gen_config(&mut crng, opts);
     let mut weights = [0u32; NCLASS];
@@ -631,6 +653,29 @@ pub fn gen_program(seed: u64, run: u64, opts: &GenOpts) -> Program {
     };
     while g.out.len() < len {
         g.step();
+    }
+    if target {
+        for _ in 0..200 {
+            match g.rng.below(10) {
+                0 => g.leaf(),
+                1 => g.unary(),
+                2 | 3 => g.binary(),
+                4 => g.ite(),
+                5 | 6 => g.quant(),
+                7 => g.subst(),
+                8 => g.pick(),
+                _ => {
+                    if g.model.kind == Kind::Zbdd {
+                        g.zops()
+                    } else {
+                        g.binary()
+                    }
+                }
+            }
+            if g.out.last().is_some_and(is_target) {
+                break;
+            }
+        }
     }
     Program { config, instrs: g.out }
 }
